@@ -20,6 +20,22 @@ theorem nLog_append2 (t : List Ev) (a b : Ev) :
   have : t ++ [a, b] = (t ++ [a]) ++ [b] := by simp
   rw [this, nLog_append, nLog_append]
 
+/-- an upstream attempt (admitted or refused) leaves the client-visible protocol state alone as long as no response
+headers went downstream -/
+theorem sndStep_un (g : Snd) (k : Nat) (h : g.hdr = false) : sndStep g (.un k) = g := by
+  cases g; simp_all [sndStep]
+
+theorem sndStep_uf (g : Snd) (k : Nat) (f : PoolFail) (h : g.hdr = false) : sndStep g (.uf k f) = g := by
+  cases g; simp_all [sndStep]
+
+theorem foldl_sndStep_neutral (l : List Ev) (g : Snd) (hl : ∀ e ∈ l, ∀ g, sndStep g e = g) : l.foldl sndStep g = g := by
+  induction l generalizing g with
+  | nil => rfl
+  | cons x r ih =>
+    simp only [List.foldl_cons]
+    rw [hl x (by simp)]
+    exact ih g (fun e he => hl e (by simp [he]))
+
 @[simp] theorem snd_resetUpstream (c : Cfg) (s : S) : snd (resetUpstream c s).trace = snd s.trace := by
   unfold resetUpstream
   split
